@@ -31,7 +31,8 @@ pub fn roundtrip(arg: &str) -> (bool, String) {
     let Some(cmd) = cmd_of(cmdb) else { return (false, "not a command".into()) };
     let msg = match Message::new(ch, cmd, &payload) {
         Ok(m) => m,
-        Err(_) => return (payload.len() <= 7608 && false, "refused by sender".into()),
+        // the protocol maximum is 7609 bytes (57 + 128 * 59): anything up to it is a message, anything above is refused
+        Err(_) => return (payload.len() <= 7609, format!("a payload of {} bytes is refused by the sender", payload.len())),
     };
     if payload.len() > 7609 {
         return (true, "payload above 7609 bytes accepted".into());
